@@ -204,3 +204,94 @@ def bystander(case, res):
         S.shutdown()
         return S.ops[:10]
     sim_case(case, res, body)
+
+
+@scenario("slowreq")
+def slowreq(case, res):
+    """a REQUESTER that does not read for a while: its own responses (single requests and batches) pile up inside the daemon.
+    Below the write buffer's capacity nothing may be lost and the connection stays; beyond it the daemon may refuse a response - but
+    then the connection has to end: a connection that is still open and in step after the reader has caught up (a fence request is
+    answered) owes a response to every request with an id that was sent on it ("answered by exactly one response")."""
+    prm = case.get("params", {})
+
+    def body(S, rng):
+        wbuf = int(S.cfg.get("CONFIG_MAX_WRITE_BUFFER_SIZE", 5120))
+        own = S.connect("own", "raw")
+        for i in range(rng.choice([1, 3, 6])):
+            S.request(own, "add", {"path": "q/%d" % i, "value": "x" * rng.choice([0, 20, 60])})
+        wit = S.connect("wit", rng.choice(["raw", "uds"]))
+        S.request(wit, "fetch", {"id": "w"})
+        S.settle()
+        for rnd in range(prm.get("rounds", 3)):
+            r = S.connect("r%d" % rnd, rng.choice(["raw", "uds", "ws"]))
+            if r.transport == "ws":
+                S.handshake(r)
+            S.request(r, "info")
+            S.settle()
+            overflow = rng.random() < prm.get("p_overflow", 0.6)
+            limit = 3 * wbuf if overflow else rng.choice([wbuf // 8, wbuf // 3, wbuf // 2])
+            r.healthy, r.may_close, r.slow = False, True, True
+            ff0 = r.failed_frames
+            S.sim.wpol(r.fd, budget=rng.choice([0, 0, 0, 5, 60]), cap=rng.choice([-1, -1, 7]))
+            per = max(1, (S.max_msg - 20) // 40)
+            nsent = 0
+            while not r.closed and len(r.expected_wire) - len(r.wire) < limit and r.failed_frames == ff0 and nsent < 4000:
+                kind = rng.choice(["info", "get", "nosuch", "batch", "batch", "batch"])
+                if not overflow and len(r.expected_wire) - len(r.wire) + (700 if kind != "get" else 200 + 120 * len(S.elements)) * (per if kind == "batch" else 1) > limit:
+                    break
+                if kind == "batch":
+                    msgs = []
+                    for _ in range(rng.randrange(2, per + 1)):
+                        m = rng.choice(["info", "nosuch", "get"])
+                        msgs.append({"id": S.next_id(r), "method": m} if m != "get" else {"id": S.next_id(r), "method": "get", "params": {}})
+                    nsent += len(msgs)
+                    S.batch(r, msgs, chunks=pick_chunks(rng))
+                elif kind == "get":
+                    S.request(r, "get", {})
+                    nsent += 1
+                else:
+                    S.request(r, kind)
+                    nsent += 1
+                if rng.random() < 0.7:
+                    S.settle()
+            S.settle()
+            refused = r.failed_frames - ff0
+            for b in [rng.choice([1, 9, 200]) for _ in range(rng.randrange(0, 3))]:
+                S.sim.wpol(r.fd, budget=b)
+                S.settle()
+            S.sim.wpol(r.fd, budget=-1, cap=-1)
+            S.settle()
+            S.settle()
+            refused = r.failed_frames - ff0
+            S.sig("slowreq", r.transport, "overflow" if overflow else "below-capacity", "closed" if r.closed else "open", refused > 0)
+            S.stats["slowreq_rounds"] += 1
+            if r.closed:
+                S.stats["slowreq_closed_by_daemon"] += 1
+                if not overflow and refused == 0:
+                    S.v("conn/slow-requester-dropped-below-the-buffer-limit", "%s with about %d bytes of responses outstanding" % (r.name, limit))
+                    break
+                continue
+            # still open: the reader has caught up, a fence shows the connection is in step
+            r.slow = False
+            fence = S.request(r, "info")
+            S.settle()
+            if r.closed:
+                continue
+            if fence.state != "sent" and refused > 0:
+                S.stats["slowreq_open_after_refusal"] += 1
+                S.v("rpc/response-refused-but-connection-stays-open", "%s (%s): %d response frame(s) were refused while the reader was slow, the connection is still open and answers (%d requests sent)"
+                    % (r.name, r.transport, refused, nsent))
+                break
+            if refused == 0:
+                r.healthy = True        # nothing was lost: from here on the byte stream has to be exact again
+                S.stats["slowreq_caught_up"] += 1
+                S.settle()
+                S.request(r, "get", {})
+                S.settle()
+            S.end(r, "eof")
+            S.settle()
+        st = S.close_all()
+        S.check_idle_baseline(st)
+        S.shutdown()
+        return S.ops[:10]
+    sim_case(case, res, body)
